@@ -766,16 +766,41 @@ def equivalence_probe(w, r, tier, in_history=False, forced=None):
             key = 'C38/clone-lacks-context-link/%s' % fn
             what = 'the clone raises AttributeError (%s): clone() does not set up the links to the other contexts that mp has' % a[2]
         else:
-            # is it the context or the history (cache state)?  repeat the second evaluation in the first context's position
-            mp.prec = p; cl.prec = pick_prec(r, avoid=p)
-            again = eval_in(w, 'mp', fn, mk(mp))
-            rg = ('exc', again[1]) if again[0] == 'exc' else ('ok', raw_of(again[1]))
+            # Is it the contexts, or the per-context history of one side (memo tables such as ctx.stieltjes_cache make a
+            # context's own results depend on what it computed before: that is history dependence, C17/C34, not
+            # isolation)?  Two brand-new clones have identical (empty) per-context histories: evaluated one after the
+            # other while every other context moves to new precisions and a third context evaluates the same thing at
+            # another precision in between, they must agree bit for bit -- anything else comes from outside them.
+            fresh = []
+            for _ in range(2):
+                z = mp.clone()
+                for n in ('mp', 'c1', 'c2', 'c3'):
+                    w.ctx[n].prec = pick_prec(r, avoid=p)
+                if slow:
+                    third.prec = r.choice([30, 77, 150])
+                eval_in(w, 'third', fn, mk(third))
+                for n in ('mp', 'c1', 'c2', 'c3'):
+                    w.ctx[n].prec = pick_prec(r, avoid=p)
+                z.prec = p; z.trap_complex = tc; z.pretty = pretty
+                o = eval_in(w, 'fresh', fn, mk(z))
+                fresh.append(('exc', o[1]) if o[0] == 'exc' else ('ok', raw_of(o[1])))
+            rec.event('mismatches adjudicated with two fresh clones')
+            case['fresh_clones'] = [short(fresh[0])[:200], short(fresh[1])[:200]]
             key = 'C38/clone-differs/%s' % fn
-            what = 'clone and mp give different raw results for the same exact input at the same precision'
-            if rg == ra and rg != rb:
-                case['mp_evaluated_again_gives_the_clone_value'] = True
-                what += ' (mp evaluated again gives the clone\'s value: the result depends on cache state filled in between)'
-        if _taint['n'] and not key.startswith('C38/clone-lacks'):
+            if fresh[0] != fresh[1]:
+                what = ('two brand-new clones give different raw results for the same exact input at the same precision '
+                        'depending on what the other contexts did in between')
+            elif (ra[0] == 'exc') != (rb[0] == 'exc') and fresh[0][0] == ra[0]:
+                what = 'clones raise / return where mp returns / raises for the same exact input at the same precision'
+            else:
+                key = None
+                rec.cls('equiv/history-dependence-of-one-side:' + fn)
+                rec.note('clone-vs-mp difference explained by the per-context history of one side (two fresh clones agree with '
+                         'each other): history dependence, outside C38 (see C17/C34)',
+                         {'call': desc, 'prec': p, 'clone': short(ra)[:160], 'mp': short(rb)[:160], 'fresh': short(fresh[0])[:160]})
+        if key is None:
+            pass
+        elif _taint['n'] and not key.startswith('C38/clone-lacks'):
             rec.undecided('clone-vs-mp mismatch after an interrupted call in this process (caches possibly inconsistent)', case)
         else:
             rec.violation(key, what, case, observed={'clone': short(ra), 'mp': short(rb), 'messages': msg[:200]}, expected='bit-identical raw results')
